@@ -7,6 +7,7 @@ import Frost.Driver.Ops
 import Frost.Model.Wire
 import Frost.Model.Resume
 import Frost.Model.Secrets
+import Frost.Model.Json
 
 namespace Frost.Driver
 open Frost Frost.Wire
@@ -192,6 +193,28 @@ def runWireOp (S : Suite F E) (hdr : Bytes) (op : String) (a : Args) : String :=
         let id ← arg a "id" C.pS
         pure (fmtOut C (fun kp => "kp=" ++ fmtKp C kp) (Resume.repairPart3 S hdr pkp ss id))
       | _ => none
+    | "json_ser", _ => do
+      let js := fun (o : Option String) => match o with
+        | some t => "ok j=" ++ toHex t.toUTF8.toList
+        | none => "err SerializationError culprits="
+      if t = "commitments" then (arg a "v" (pSC C)).map fun v => js (Json.commitments S v)
+      else if t = "nonces" then (arg a "v" (pNonces C)).map fun v => js (Json.nonces S v)
+      else if t = "package" then do
+        let v ← arg a "v" (pRecs (pComm C))
+        let msg ← arg a "msg" parseHex
+        pure (js (Json.package S ⟨SMap.ofList lt v, msg⟩))
+      else if t = "secretshare" then (arg a "v" (pSS C)).map fun v => js (Json.secretShare S v)
+      else if t = "keypackage" then (arg a "v" (pKp C)).map fun v => js (Json.keyPackage S v)
+      else if t = "pubkeypackage" then
+        (arg a "v" (pPkp C)).map fun v => js (Json.publicKeyPackage S { v with vshares := SMap.ofList lt v.vshares })
+      else if t = "dkg1package" then (arg a "v" (pR1' C)).map fun v => js (Json.round1Package S v)
+      else if t = "dkg2package" then (arg a "v" C.pS).map fun v => js (some (Json.round2Package S v))
+      else if t = "dkg1secret" then (arg a "v" (pSp1 C)).map fun v => js (Json.round1Secret S v)
+      else if t = "dkg2secret" then (arg a "v" (pSp2 C)).map fun v => js (Json.round2Secret S v)
+      else if t = "sigshare" then (arg a "v" C.pS).map fun v => js (some (Json.signatureShare S v))
+      else if t = "signature" then (arg a "v" (pSig C)).map fun v => js (Json.signature S v)
+      else if t = "identifier" then (arg a "v" C.pS).map fun v => js (some (Json.scalar S v))
+      else none
     | "wipe", "signingshare" => do
       let v ← arg a "v" C.pS
       pure ("ok v=" ++ C.sS (Secrets.scalar v))
